@@ -951,12 +951,9 @@ fn gen_case(rng: &mut Rng, idx: usize, thorough: bool) -> Vec<String> {
     for p in &asked {
         for ep in ["versions", "cdns", "bgdl"] {
             for tr in ["v1", "v2", "http"] {
-                // run-only corners (URL syntax of reqwest/axum, MIME boundary handling of
-                // mail_parser): still judged by the oracle, not compared with the model
-                let newest_has_boundary = newest(&recs, p).is_some_and(|r| {
-                    [Some(&r.version), Some(&r.build), r.keyring.as_ref(), r.cdn_path.as_ref()].iter().flatten().any(|f| f.contains("--RibbitBoundary"))
-                });
-                let opaque = (tr == "http" && !addressable_http(p)) || (tr == "v1" && newest_has_boundary);
+                // run-only corner (URL syntax of reqwest/axum): still judged by the oracle, not
+                // compared with the model
+                let opaque = tr == "http" && !addressable_http(p);
                 lines.push(format!("client{} {tr} {} {ep}", if opaque { "x" } else { "" }, hx(p)));
             }
         }
